@@ -147,6 +147,12 @@ def lkind(k):
         f"initEffects := {llist(map(lstr, k['init_effects']))}",
         f"reads := {llist(llist(map(lstr, p)) for p in k.get('reads', []))}",
         f"uses := {llist(uses)}",
+        f"fmt := .{k['view']['format'] if k['view']['format'] in ('name', 'json', 'bytes', 'bytearray') else 'unknown'}",
+        f"selfSafeAlways := {str(k['view']['self_safe'] == 'always').lower()}",
+        f"isSafeAlways := {str(k['view']['is_safe'] == 'always').lower()}",
+        f"viewKnown := {str(k['view']['self_safe'] != 'unknown' and k['view']['is_safe'] != 'unknown' and k['view']['format'] != 'unknown').lower()}",
+        f"skipped := {str(bool(k['view']['skipped'])).lower()}",
+        f"isListNode := {str(bool(k['view']['is_list_node'])).lower()}",
     ]
     return "{ " + ",\n    ".join(fields) + " }"
 
